@@ -102,6 +102,43 @@ fn resolve_placeholders(op: &Op, gs: &GState) -> Op {
     }
 }
 
+/// The raw call a wrapper-level call stands for, and the wrapper's answer in the raw call's vocabulary: the
+/// oracles and the reference state are written for the raw calls.  (`HasOpen` stands for "no call at all".)
+fn raw_equivalent(op: &Op, out: &Outcome, gs: &GState) -> (Op, Outcome) {
+    let with = |res: String| Outcome { res, writes: out.writes.clone(), reads: out.reads.clone() };
+    let unitise = |o: &Outcome| if o.res.starts_with("ok") { with("ok".into()) } else { o.clone() };
+    let unpanic = |o: &Outcome| if o.res == "panic" { with("err BadHandle".into()) } else { o.clone() };
+    match op {
+        Op::IoRead(_, 0) | Op::IoWrite(_, _) if matches!(op, Op::IoRead(_, 0)) || matches!(op, Op::IoWrite(_, b) if b.is_empty()) => (Op::HasOpen, with("ok t".into())),
+        Op::IoRead(f, n) => (Op::Read(*f, *n), out.clone()),
+        Op::IoWrite(f, b) => (Op::Write(*f, b.clone()), unitise(out)),
+        Op::IoFlush(f) => (Op::Flush(*f), out.clone()),
+        Op::IoSeekStart(f, n) => (Op::SeekStart(*f, (*n).min(u32::MAX as u64) as u32), unitise(out)),
+        Op::IoSeekEnd(f, n) => {
+            let back = n.checked_neg().filter(|b| *b >= 0 && *b <= u32::MAX as i64);
+            (Op::SeekEnd(*f, back.map(|b| b as u32).unwrap_or(u32::MAX)), unitise(out))
+        }
+        Op::IoSeekCur(f, n) => (Op::SeekCur(*f, if *n > i32::MAX as i64 { i32::MAX } else if *n < i32::MIN as i64 { i32::MIN } else { *n as i32 }), unitise(out)),
+        Op::WEof(f) => (Op::Eof(*f), unpanic(out)),
+        Op::WLength(f) => (Op::Length(*f), unpanic(out)),
+        Op::WOffset(f) => (Op::Offset(*f), unpanic(out)),
+        Op::WCloseFile(f) => (Op::CloseFile(*f), out.clone()),
+        // a drop swallows the result: what happened is known from the table (an open file is always removed)
+        Op::WDropFile(f) => (Op::CloseFile(*f), with(if gs.files.iter().any(|x| x.handle == *f) { "ok".into() } else { "err BadHandle".to_string() })),
+        Op::WCloseDir(d) => (Op::CloseDir(*d), out.clone()),
+        Op::WDropDir(d) => (Op::CloseDir(*d), with(if gs.dirs.iter().any(|x| x.handle == *d) { "ok".into() } else { "err BadHandle".to_string() })),
+        Op::WCloseVolume(v) => (Op::CloseVolume(*v), out.clone()),
+        Op::WDropVolume(v) => {
+            let open = gs.vols.iter().any(|x| x.handle == *v);
+            let busy = gs.files.iter().any(|x| gs.vols.iter().any(|gv| gv.handle == *v && gv.vol == x.vol)) || gs.dirs.iter().any(|x| x.vhandle == *v);
+            (Op::CloseVolume(*v), with(if !open { "err BadHandle".into() } else if busy { "err VolumeStillInUse".into() } else { "ok".to_string() }))
+        }
+        // change_dir = open the new one, then close the old one; only the success case changes the tables
+        Op::WChangeDir(d, n) => (Op::OpenDir(*d, n.clone()), unpanic(out)),
+        other => (other.clone(), out.clone()),
+    }
+}
+
 fn region_of(l: &Layout, idx: u32) -> &'static str {
     if idx < l.lba_start || idx >= l.lba_start + l.total_blocks {
         return "outside";
@@ -304,17 +341,21 @@ pub fn run_case(rng: &mut Rng, sc: &Scenario, cfg: &RunCfg, model: &mut Model, r
         let calls_before = sess.disk.calls();
         let pre_image = if cfg.region_oracle { Some(sess.image()) } else { None };
         // which volume does the call operate on (for the C04 oracle)
-        let op_vol: Option<usize> = match &op {
+        let op_for_vol = raw_equivalent(&op, &Outcome { res: String::new(), writes: vec![], reads: vec![] }, &gs).0;
+        let op_vol: Option<usize> = match &op_for_vol {
             Op::Read(f, _) | Op::Write(f, _) | Op::Flush(f) | Op::CloseFile(f) => gs.files.iter().find(|x| x.handle == *f).map(|x| x.vol),
             Op::OpenFile(d, ..) | Op::Delete(d, _) | Op::Mkdir(d, _) | Op::OpenDir(d, _) | Op::Find(d, _) | Op::List(d) | Op::ListLfn(d, _) => gs.dirs.iter().find(|x| x.handle == *d).map(|x| x.vol),
             Op::CloseVolume(v) | Op::Label(v) | Op::OpenRoot(v) => gs.vols.iter().find(|x| x.handle == *v).map(|x| x.vol),
             _ => None,
         };
-        let pos_before = match &op {
+        let pos_before = match &op_for_vol {
             Op::Write(f, _) | Op::Read(f, _) => gs.files.iter().find(|x| x.handle == *f).map(|x| x.pos),
             _ => None,
         };
         let out = sess.exec(&op);
+        // wrapper-level calls are judged as the raw calls they stand for; the model sees the call as issued
+        let (op_orig, out_orig) = (op.clone(), out.clone());
+        let (op, out) = raw_equivalent(&op_orig, &out_orig, &gs);
         let faulted = sess.disk.fault_hits() > hits_before;
         if !fault_here.is_empty() {
             sess.disk.clear_faults();
@@ -460,12 +501,15 @@ pub fn run_case(rng: &mut Rng, sc: &Scenario, cfg: &RunCfg, model: &mut Model, r
         }
 
         // ---- lines for the model / the Lean specification --------------------------------------
-        lines.push(Line { req: op.line(), expect: Expect::Op(out.line(cfg.compare_reads)), step: sidx });
+        lines.push(Line { req: op_orig.line(), expect: Expect::Op(out_orig.line(cfg.compare_reads)), step: sidx });
         if !fault_here.is_empty() {
             lines.push(Line { req: "faults -".to_string(), expect: Expect::Setup, step: sidx });
         }
-        ops.push(op.clone());
-        outcomes.push(out.clone());
+        ops.push(op_orig.clone());
+        outcomes.push(out_orig.clone());
+        if op_orig != op {
+            rep.count(&format!("wrapper:{}", op_orig.kind()));
+        }
         // a failed write: learn how far it got (one more API call, part of the history)
         let mut offset_after = None;
         if let Op::Write(f, _) = &op {
@@ -530,6 +574,36 @@ pub fn run_case(rng: &mut Rng, sc: &Scenario, cfg: &RunCfg, model: &mut Model, r
         // reference state
         let _ = pos_before;
         gs.apply(sc, &op, &out, offset_after);
+        // a successful change_dir has also closed the directory it started from
+        if let Op::WChangeDir(d, _) = &op_orig {
+            if out_orig.handle().is_some() {
+                let mut o2 = out_orig.clone();
+                o2.res = "ok".into();
+                gs.apply(sc, &Op::CloseDir(*d), &o2, None);
+            }
+        }
+        // (C01, wrapper level) embedded-io: `seek` returns the new position, `write` the number of bytes taken
+        match &op_orig {
+            Op::IoSeekStart(f, _) | Op::IoSeekEnd(f, _) | Op::IoSeekCur(f, _) => {
+                if let (Some(p), Some(gf)) = (out_orig.res.strip_prefix("ok n ").and_then(|x| x.parse::<usize>().ok()), gs.files.iter().find(|x| x.handle == *f)) {
+                    rep.oracle_checks += 1;
+                    if p != gf.pos {
+                        local_violation = true;
+                        rep.violation("impl-vs-spec", "io-seek-position", &format!("`{}` returned position {p} but the byte-array cursor is at {}", op_orig.show(), gf.pos), replay_of(&ops, &outcomes, sidx, sc, J::Null));
+                    }
+                }
+            }
+            Op::IoWrite(_, b) => {
+                if let Some(k) = out_orig.res.strip_prefix("ok n ").and_then(|x| x.parse::<usize>().ok()) {
+                    rep.oracle_checks += 1;
+                    if k != b.len() {
+                        local_violation = true;
+                        rep.violation("impl-vs-spec", "io-write-count", &format!("`{}` returned {k} for a {}-byte buffer", op_orig.show(), b.len()), replay_of(&ops, &outcomes, sidx, sc, J::Null));
+                    }
+                }
+            }
+            _ => {}
+        }
         // (C09) bookkeeping: what is known to be on the medium
         match &op {
             Op::Flush(f) if out.is_ok() => {
